@@ -24,13 +24,30 @@ import (
 
 // ---------------------------------------------------------------- strategies
 
-var stratNames = []string{"uniform", "dispatcher-first", "workers-first-low", "workers-first-high", "failing-first", "priorities", "hold-exits", "round-robin"}
+var stratNames = []string{"uniform", "dispatcher-first", "workers-first-low", "workers-first-high", "failing-first", "priorities", "hold-exits", "round-robin", "postprocess-all-before-writes"}
 
 func mkChooser(strat int, rng *vl.Rng) chooser {
 	prio := map[int]int{}
 	rr := 0
 	return func(r *runner, keys []int) int {
 		switch strat {
+		case 8:
+			// fill the semaphore, take every started worker through PostProcess, only then let the writes
+			// consume their contents (in a seeded order): a content that is not a function of its own file
+			// alone (shared/pooled buffer) shows up as foreign bytes in the write
+			if keys[0] == -1 {
+				return -1
+			}
+			var fresh []int
+			for _, k := range keys {
+				if r.parked[k].kind == "w-start" {
+					fresh = append(fresh, k)
+				}
+			}
+			if len(fresh) > 0 {
+				return fresh[0]
+			}
+			return keys[rng.Intn(len(keys))]
 		case 1:
 			if keys[0] == -1 {
 				return -1
@@ -104,6 +121,26 @@ func mkJobs(n int, fails string) []job {
 		js[k] = job{Path: fmt.Sprintf("d%d/f%d", k%2, k), Content: fmt.Sprintf("c%d", k), Fail: string(fails[k])}
 	}
 	return js
+}
+
+// goSource: unformatted Go source of file k; every file has its own package name, identifiers and size.
+func goSource(k int) string {
+	sb := &strings.Builder{}
+	fmt.Fprintf(sb, "package p%d\n\n// marker-%d\n", k, k)
+	for i := 0; i <= k%3; i++ {
+		fmt.Fprintf(sb, "type   T%d_%d struct {\nA%d int64\n  B string\n}\n", k, i, k)
+	}
+	return sb.String()
+}
+
+// realCfg turns a configuration into one for the real Go backend: *.go paths, Go sources as contents.
+func realCfg(c cfgT) cfgT {
+	d := cfgT{Conc: c.Conc, HasPP: true, RealPP: true}
+	for k, j := range c.Jobs {
+		f := j.Fail
+		d.Jobs = append(d.Jobs, job{Path: fmt.Sprintf("gen-go/p%d/f%d.go", k%3, k), Content: goSource(k), Fail: f, Prev: j.Prev})
+	}
+	return d
 }
 
 func genCfg(rng *vl.Rng, maxN, maxK int) (cfgT, string) {
@@ -293,6 +330,9 @@ func (h *harness) fail(in input, bad []string, observed string) {
 		return
 	}
 	tries := 120
+	if in.Mode == "persist" {
+		tries = 25
+	}
 	cur := in
 	repro := func(c input) (*outcome, bool) {
 		c.Schedule = nil
@@ -306,38 +346,38 @@ func (h *harness) fail(in input, bad []string, observed string) {
 		var cands []cfgT
 		c := cur.Cfg
 		for k := len(c.Jobs) - 1; k >= 0; k-- { // drop job k (paths keep their identity)
-			d := cfgT{Conc: c.Conc, HasPP: c.HasPP, PrevViaPersist: c.PrevViaPersist}
+			d := cfgT{RealPP: c.RealPP, Conc: c.Conc, HasPP: c.HasPP, PrevViaPersist: c.PrevViaPersist}
 			d.Jobs = append(append([]job(nil), c.Jobs[:k]...), c.Jobs[k+1:]...)
 			cands = append(cands, d)
 		}
 		for k := range c.Jobs {
 			if c.Jobs[k].Prev != "" {
-				d := cfgT{Conc: c.Conc, HasPP: c.HasPP, PrevViaPersist: c.PrevViaPersist, Jobs: append([]job(nil), c.Jobs...)}
+				d := cfgT{RealPP: c.RealPP, Conc: c.Conc, HasPP: c.HasPP, PrevViaPersist: c.PrevViaPersist, Jobs: append([]job(nil), c.Jobs...)}
 				d.Jobs[k].Prev = ""
 				cands = append(cands, d)
 			}
 		}
 		if c.PrevViaPersist {
-			cands = append(cands, cfgT{Conc: c.Conc, HasPP: c.HasPP, Jobs: c.Jobs})
+			cands = append(cands, cfgT{RealPP: c.RealPP, Conc: c.Conc, HasPP: c.HasPP, Jobs: c.Jobs})
 		}
 		for k := range c.Jobs {
 			if c.Jobs[k].Fail != "o" {
-				d := cfgT{Conc: c.Conc, HasPP: c.HasPP, PrevViaPersist: c.PrevViaPersist, Jobs: append([]job(nil), c.Jobs...)}
+				d := cfgT{RealPP: c.RealPP, Conc: c.Conc, HasPP: c.HasPP, PrevViaPersist: c.PrevViaPersist, Jobs: append([]job(nil), c.Jobs...)}
 				d.Jobs[k].Fail = "o"
 				cands = append(cands, d)
 			} else {
 				continue
 			}
 			if c.Jobs[k].Fail == "b" || c.Jobs[k].Fail == "p" {
-				d := cfgT{Conc: c.Conc, HasPP: c.HasPP, PrevViaPersist: c.PrevViaPersist, Jobs: append([]job(nil), c.Jobs...)}
+				d := cfgT{RealPP: c.RealPP, Conc: c.Conc, HasPP: c.HasPP, PrevViaPersist: c.PrevViaPersist, Jobs: append([]job(nil), c.Jobs...)}
 				d.Jobs[k].Fail = "w"
 				cands = append(cands, d)
 			}
 		}
 		if c.Conc != 1 {
-			cands = append(cands, cfgT{Conc: 1, HasPP: c.HasPP, PrevViaPersist: c.PrevViaPersist, Jobs: c.Jobs})
+			cands = append(cands, cfgT{RealPP: c.RealPP, Conc: 1, HasPP: c.HasPP, PrevViaPersist: c.PrevViaPersist, Jobs: c.Jobs})
 			if c.Conc > 2 {
-				cands = append(cands, cfgT{Conc: c.Conc - 1, HasPP: c.HasPP, PrevViaPersist: c.PrevViaPersist, Jobs: c.Jobs})
+				cands = append(cands, cfgT{RealPP: c.RealPP, Conc: c.Conc - 1, HasPP: c.HasPP, PrevViaPersist: c.PrevViaPersist, Jobs: c.Jobs})
 			}
 		}
 		for _, d := range cands {
@@ -402,6 +442,21 @@ func run(repo, dir string, seed uint64, tier, pathsFile string, batch, nbatch in
 	for i := 0; i < nCtl && !h.stop; i++ {
 		cfg, mode := genCfg(rng, maxN, maxK)
 		strat := rng.Intn(len(stratNames))
+		pp := "mock"
+		if !cfg.HasPP {
+			pp = "none"
+		}
+		if i%8 == 3 { // the real golang.GoBackend.PostProcess on recognisable Go sources
+			cfg = realCfg(cfg)
+			pp = "real-go-backend"
+			if cfg.Conc < 2 && rng.Chance(70) {
+				cfg.Conc = 2 + rng.Intn(maxK)
+			}
+			if rng.Chance(50) {
+				strat = 8
+			}
+		}
+		out.Count("post-processor:" + pp)
 		o, bad := runControlled(cfg, nil, mkChooser(strat, rng), h.wd)
 		h.record(cfg, o, bad, "controlled:"+stratNames[strat])
 		out.Count("fail-pattern:" + mode)
@@ -410,13 +465,19 @@ func run(repo, dir string, seed uint64, tier, pathsFile string, batch, nbatch in
 	jit := rng.U64()
 	for i := 0; i < nFree && !h.stop; i++ {
 		cfg, _ := genCfg(rng, maxN, maxK)
+		if i%6 == 2 {
+			cfg, _ = genCfg(rng, 40, maxK)
+			cfg = realCfg(cfg)
+			cfg.Conc = 2 + rng.Intn(7)
+			out.Count("free-running:real-go-backend")
+		}
 		o, bad := runFree(cfg, &jit, 2*time.Second)
 		out.Count("class:free-running")
 		if o.Stalled {
 			h.stalled++
 			continue
 		}
-		if len(cfg.Jobs) <= 4 && cfg.Conc <= 3 {
+		if len(cfg.Jobs) <= 4 && cfg.Conc <= 3 && !cfg.RealPP {
 			impl := "member"
 			if o.Deadlock || o.Leak {
 				impl = "deadlock"
@@ -447,6 +508,21 @@ func run(repo, dir string, seed uint64, tier, pathsFile string, batch, nbatch in
 			}
 		}
 		out.Count("persist-history:" + hist)
+		if i%5 == 1 {
+			big, _ := genCfg(rng, 150, maxK)
+			for k := range big.Jobs {
+				if k < len(cfg.Jobs) {
+					big.Jobs[k].Prev = cfg.Jobs[k].Prev
+				}
+				if big.Jobs[k].Fail != "o" && rng.Chance(90) { // mostly successful runs: nil must mean right bytes
+					big.Jobs[k].Fail = "o"
+				}
+			}
+			big.PrevViaPersist = cfg.PrevViaPersist
+			cfg = realCfg(big)
+			cfg.Conc = runtime.GOMAXPROCS(0)
+			out.Count("persist:real-go-backend")
+		}
 		o, bad := runPersist(cfg)
 		out.Count("class:persist-e2e")
 		out.Count("persist-ret:" + strings.TrimRight(o.Ret, "0123456789"))
@@ -511,20 +587,20 @@ func runPersist(cfg cfgT) (*outcome, []string) {
 		panic(err)
 	}
 	defer os.RemoveAll(root)
-	full := cfgT{Conc: cfg.Conc, HasPP: true}
+	full := cfgT{Conc: cfg.Conc, HasPP: true, RealPP: cfg.RealPP}
 	for k, j := range cfg.Jobs {
 		p := filepath.Join(root, j.Path)
 		if j.Fail == "w" || j.Fail == "b" {
 			blocker := filepath.Join(root, fmt.Sprintf("blk%d", k))
 			os.WriteFile(blocker, []byte("x"), 0o644)
-			p = filepath.Join(blocker, "sub", fmt.Sprintf("f%d", k))
+			p = filepath.Join(blocker, "sub", fmt.Sprintf("f%d%s", k, filepath.Ext(j.Path)))
 		}
 		full.Jobs = append(full.Jobs, job{Path: p, Content: j.Content, Fail: j.Fail, Prev: j.Prev})
 	}
 	// previous generation: files of the same names that are longer / shorter / as long as the new bytes
 	prevDisk := map[int]string{}
 	{
-		pre := cfgT{Conc: cfg.Conc, HasPP: true}
+		pre := cfgT{Conc: cfg.Conc, HasPP: true, RealPP: cfg.RealPP}
 		var idx []int
 		for k, j := range full.Jobs {
 			if j.Prev == "" || j.Fail == "w" || j.Fail == "b" {
@@ -533,7 +609,7 @@ func runPersist(cfg cfgT) (*outcome, []string) {
 			var old string
 			switch j.Prev {
 			case "longer":
-				old = j.Content + "-stale-tail-of-the-previous-generation"
+				old = j.Content + j.Content + "-stale-tail-of-the-previous-generation"
 			case "shorter":
 				old = ""
 			default: // equal
